@@ -77,7 +77,8 @@ static int interesting(const char *w) {
 static int stalled(int pi) {
   if (pi != S.sproc || !S.scall) return 0;
   if (P[pi].ncalls + 1 != S.scall) return 0;
-  if (!stall_release) stall_release = W.clock + S.ssecs;
+  if (P[pi].alarm_at && W.clock >= P[pi].alarm_at) return 0;   /* a blocked process still gets its SIGALRM: let it run into the gate that delivers it */
+  if (!stall_release) { stall_release = W.clock + S.ssecs; xlog("X stall-fired proc=%d call=%d secs=%ld\n", pi, S.scall, S.ssecs); }
   return W.clock < stall_release;
 }
 static int interesting_dfs(int pi, const char *w) {     /* systematic mode: decisions only at calls on queue files */
@@ -366,15 +367,17 @@ static void gen_scenario(char *o, size_t osz, int r) {
   static const char *outs[] = { "K", "KZ", "D", "KD", "ZZK", "DK", "Z" };
   n += snprintf(o + n, osz - n, " out=%s", outs[h_below(7)]);
   if (h_below(4) == 0) n += snprintf(o + n, osz - n, " bf=%s", (const char *[]){ "1", "10", "110", "01" }[h_below(4)]);
+  int stall_h = 0;
   switch (r % 6) {
-    case 1: n += snprintf(o + n, osz - n, " stall=%d:%d:%d", 2 + (int)h_below(ninj), 20 + (int)h_below(45), (int[]){ 1, 20, 30, 37, 40, 60 }[h_below(6)]); break;
-    case 2: n += snprintf(o + n, osz - n, " kill=%d:%d", 2 + (int)h_below(ninj), 20 + (int)h_below(45)); break;
-    case 3: n += snprintf(o + n, osz - n, " fault=%d:%d:%d", (int)h_below(2 + ninj), 15 + (int)h_below(120), (int[]){ EIO, ENOSPC, EIO, ENOMEM }[h_below(4)]); break;
+    case 1: { int sp = 2 + (int)h_below(ninj), sc = 1 + (int)h_below(16); stall_h = (int[]){ 1, 20, 30, 37, 40, 60 }[h_below(6)]; n += snprintf(o + n, osz - n, " stall=%d:%d:%d", sp, sc, stall_h); break; }   /* an injection is 8-15 calls long (was 20..64: never reached; found with round-3 seed m2) */
+    case 2: n += snprintf(o + n, osz - n, " kill=%d:%d", 2 + (int)h_below(ninj), 1 + (int)h_below(16)); break;
+    case 3: { int fp = (int)h_below(2 + ninj); n += snprintf(o + n, osz - n, " fault=%d:%d:%d", fp, fp >= 2 ? 1 + (int)h_below(16) : 15 + (int)h_below(120), (int[]){ EIO, ENOSPC, EIO, ENOMEM }[h_below(4)]); break; }
     case 4: n += snprintf(o + n, osz - n, " crash=%d:%d", 150 + (int)h_below(900), (int)h_below(5)); break;
     default: break;
   }
   if (h_below(4) == 0) n += snprintf(o + n, osz - n, " d2=%d", 25 + (int)h_below(300));   /* after the first instance has the lock (its 19th call) */
-  n += snprintf(o + n, osz - n, " sched=%u hor=%d", (unsigned)h_below(1000000), 150 + (int)h_below(150));
+  /* a long stall only matters if the daemon lives through it: 36 h of virtual time need about 550 selects (found with round-3 seed m2) */
+  n += snprintf(o + n, osz - n, " sched=%u hor=%d", (unsigned)h_below(1000000), stall_h >= 37 ? 650 + (int)h_below(200) : 150 + (int)h_below(150));
 }
 
 int main(int argc, char **argv) {
